@@ -369,6 +369,20 @@ theorem ref_sep_invariant (w : RWorld) (hs : w.Sep) (a : List (List Rat)) (refs 
   ⟨by decide, w.Sep_new hs a, w.Sep_construct hs refs, w.Sep_construct hs _, w.Sep_inplace hs i ops,
     RWorld.Sep_inplace _ (w.Sep_construct hs _) _ _⟩
 
+/-- **every world the driver can reach satisfies the invariant**: whatever sequence of `ref …` requests
+(`stepRef`, the function the driver executes; rejected requests leave the world as it is) is run from a
+world satisfying `Sep` — in particular from the empty one after `ref reset`. -/
+theorem ref_reachable_sep (reqs : List (List String)) (w : RWorld) (hs : w.Sep) :
+    (reqs.foldl (fun w toks => match stepRef w toks with | some (w', _) => w' | none => w) w).Sep := by
+  induction reqs generalizing w with
+  | nil => exact hs
+  | cons t ts ih =>
+    simp only [List.foldl_cons]
+    apply ih
+    cases h : stepRef w t with
+    | none => exact hs
+    | some r => exact stepRef_sep w r.1 t r.2 hs (by rw [h])
+
 /-- **an in-place operation (`scale`, `shift`) changes the value of its target only — every other live
 grid, earlier copies and the caller's arrays included, reads the same values as before — and on the
 target every array is acted on exactly once** -/
